@@ -8,7 +8,7 @@ CONSTANTS
   PathValIds = {"i2", "s2"}
   VarLeaves = {"name", "parent", "inner.name", "inner.kind"}
   Numerics = {FALSE, TRUE}
-  RespTypes = {"A"}
+  RespTypes = {"A", "P"}
   ReplyIds = {"part"}
   Calls = 1
   Mutant = "none"
